@@ -196,6 +196,9 @@ func (w *world) simulate(choices []int) {
 		w.event("C")
 	}
 
+	if autoFlavour {
+		kernel.EnableAuto()
+	}
 	k := kernel.New(cfg.Strat.build(), choices, w.replay)
 	w.k = k
 	k.Journal = w.journal
